@@ -37,6 +37,8 @@ def check(run):
     _copies(run, P)
     _nan_filter(run, P)
     _antimeridian(run, P)
+    from ..rules import idxlint
+    idxlint.check(run, P, ("uxarray/grid/", "uxarray/core/", "uxarray/subset/", "uxarray/cross_sections/", "uxarray/remap/", "uxarray/plot/", "uxarray/io/"))
     _winding(run, P)
     _shell_builds(run, P)
     _data_paths(run, P)
